@@ -19,10 +19,18 @@ REQUIRED = {t: "oracle:C10.three-way oracle:C10.second-reader reopen-readonly-ch
 
 
 def plan(tier, seed):
-    return plan_container(tier, seed, ["C10"])
+    sh = plan_container(tier, seed, ["C10"])
+    if tier == "thorough":
+        sh.append({"kind": "strace", "n": 120})
+        sh.append({"kind": "random", "shard": 101, "budget_s": 60, "oracles": ["C10"], "env": {"TZ": "Europe/Rome"}})
+        sh.append({"kind": "random", "shard": 102, "budget_s": 60, "oracles": ["C10"], "env": {"TZ": "America/Sao_Paulo"}})
+    return sh
 
 
 def run_shard(desc, rec):
+    if desc["kind"] == "strace":
+        from ..drivers import syscalls
+        return syscalls.run_shard(desc, rec)
     container.run_shard(desc, rec)
 
 
